@@ -286,8 +286,13 @@ def _is_per_source_loop(ctx, u, loop_ast) -> bool:
         return False
     cfg = cfg_of(u)
     nodes = [n for n in cfg.nodes if n.kind == "siter" and n.ast is loop_ast]
+    # ``for i in range(len(sources))``: one round per source as well
+    over = it
+    if isinstance(it, ast.Call) and norm(it.func) == "range" and len(it.args) == 1 and isinstance(it.args[0], ast.Call) \
+            and norm(it.args[0].func) == "len" and len(it.args[0].args) == 1:
+        over = it.args[0].args[0]
     for n in nodes:
-        v = ctx.vals.element_of(ctx.vals.expr(u, it, n))
+        v = ctx.vals.element_of(ctx.vals.expr(u, over, n))
         if any(a[0] in ("user", "iter") for a in atoms_deep(v)):
             return True
     return False
@@ -382,18 +387,21 @@ def _window(ctx, u, cfg, name: Optional[str], grown: ast.AST, n: Node) -> Tuple[
             return False, "the batch is never cleared"
         fl = fill_loops[0]
         heads = [s for s in cfg.nodes if s.kind == "siter" and s.ast is fl and not s.tag]
+        rebinds = [s for s in cfg.nodes if s.kind == "store" and not s.tag
+                   and any(isinstance(t, ast.Name) and t.id == name for t in s.info.get("targets", []))]
         for h in heads:
-            # every way of (re-)entering the fill loop passes a clear()
+            # once a fill is complete, every way back into the fill loop passes a clear() (or a fresh list)
             outer = [a for (k, a) in h.regions if k == "loop"]
             if not outer:
                 return False, "the fill loop is not inside a batch loop"
-            rounds = [m for m in cfg.nodes if m.kind == "nop" and m.ast is outer[-1] and m.info.get("note") == "loop-head"]
-            for r in rounds:
-                path = find_path(r, lambda x: x is h, avoid=lambda x: x in clears,
-                                 edge_ok=lambda a, lab, b: lab not in ("e", "p"))
+            for lab, after in h.succ:
+                if lab != "stop":
+                    continue
+                path = find_path(after, lambda x: x is h, avoid=lambda x: x in clears or x in rebinds,
+                                 edge_ok=lambda a, lab_, b: lab_ not in ("e", "p"))
                 if path is not None:
                     return False, "a new batch can start without clearing the previous one"
-        return True, "cleared at the start of every batch, filled by a range(n) loop (<= n items)"
+        return True, "cleared between any two batches, filled by a range(n) loop (<= n items)"
     if short == "heapq._largest":
         comp = grown if isinstance(grown, ast.ListComp) else None
         if comp is not None:
